@@ -72,7 +72,8 @@ type c19Server struct {
 	kind     string
 	mu       sync.Mutex
 	sessions []*c19Session
-	down     int32
+	down     int32 // 1: connections are refused; 2: every new session is answered with "finished" (a server shutting down)
+	drained  int32 // sessions ended that way
 	ln       net.Listener
 	tl       lime.TransportListener
 	wsURL    string
@@ -98,6 +99,14 @@ func (sv *c19Server) newest() *c19Session {
 func (sv *c19Server) serveRaw(c net.Conn, mem *memconn.Conn) {
 	r := bufio.NewReaderSize(c, 1<<16)
 	if _, err := r.ReadString('\n'); err != nil {
+		_ = c.Close()
+		return
+	}
+	if atomic.LoadInt32(&sv.down) == 2 {
+		// a server that is shutting down: every new session is ended at once
+		atomic.AddInt32(&sv.drained, 1)
+		_, _ = c.Write([]byte(fmt.Sprintf(`{"state":"finished","id":"d%d","from":"%s"}`+"\n", atomic.LoadInt32(&sv.drained), serverNode.String())))
+		time.Sleep(time.Millisecond)
 		_ = c.Close()
 		return
 	}
@@ -133,6 +142,13 @@ func (sv *c19Server) serveTransport(t lime.Transport) {
 		return
 	}
 	if ses, ok := e.(*lime.Session); !ok || ses.State != lime.SessionStateNew {
+		_ = t.Close()
+		return
+	}
+	if atomic.LoadInt32(&sv.down) == 2 {
+		n := atomic.AddInt32(&sv.drained, 1)
+		_ = t.Send(ctx, &lime.Session{Envelope: lime.Envelope{ID: fmt.Sprintf("d%d", n), From: serverNode}, State: lime.SessionStateFinished})
+		time.Sleep(time.Millisecond)
 		_ = t.Close()
 		return
 	}
@@ -426,6 +442,8 @@ func c19Run(scn *c19Scn) c19Obs {
 			stable(40*time.Millisecond, time.Second)
 		case a == "down":
 			atomic.StoreInt32(&sv.down, 1)
+		case a == "drain":
+			atomic.StoreInt32(&sv.down, 2)
 		case a == "up":
 			atomic.StoreInt32(&sv.down, 0)
 			// a client without a session retries with a growing back-off
@@ -514,7 +532,8 @@ func (c *c19Case) coq() string {
 		switch {
 		case a == "send":
 			acts[i] = "ASendOp"
-		case a == "down":
+		case a == "down" || a == "drain":
+			// a server that ends every new session at once is as unreachable as one that refuses connections
 			acts[i] = "ADown"
 		case a == "up":
 			acts[i] = "AUp"
@@ -583,7 +602,11 @@ func genC19(env *Env, kind string, n int) c19Scn {
 		case r < 9:
 			sc.Actions = append(sc.Actions, "watch")
 		default:
-			sc.Actions = append(sc.Actions, "down")
+			if rng.Intn(2) == 0 {
+				sc.Actions = append(sc.Actions, "down")
+			} else {
+				sc.Actions = append(sc.Actions, "drain")
+			}
 			down = true
 			downBudget = 1 + rng.Intn(2)
 		}
@@ -597,7 +620,7 @@ func genC19(env *Env, kind string, n int) c19Scn {
 func runC19(env *Env) error {
 	env.Header = "From Coq Require Import List Bool Arith.\nImport ListNotations.\nFrom Lime Require Import Base.Res Life.Client Corr.C19.\n"
 	env.ShardSize = 60
-	env.Rule = "real Client (background listener, automatic reconnection) against a scripted server, each scenario in its own process: every fault kind the transport allows (server finish/fail, EOF, reset, undecodable and non-envelope JSON, oversized envelope, regressing session envelope) followed by push / send / CPU watch, repeated faults, faults and sends while the server is unreachable, over in-memory TCP, loopback TCP, WebSocket and in-process. Non-trivial: at least one fault followed by an observation. Distinct by printed scenario."
+	env.Rule = "real Client (background listener, automatic reconnection) against a scripted server, each scenario in its own process: every fault kind the transport allows (server finish/fail, EOF, reset, undecodable and non-envelope JSON, oversized envelope, regressing session envelope) followed by push / send / CPU watch, repeated faults, faults and sends while the server is unreachable (refusing connections, or answering every new session with finished), over in-memory TCP, loopback TCP, WebSocket and in-process. Non-trivial: at least one fault followed by an observation. Distinct by printed scenario."
 	var rc c19Case
 	if ok, err := env.ReplayDesc(&rc); err != nil {
 		return err
@@ -626,7 +649,12 @@ func runC19(env *Env) error {
 		// and holds the build lock while the server is unreachable and its own deadline expires
 		c19Scn{Kind: "mem", Actions: []string{"slowpush", "down", "fault:eof", "send", "up", "send", "push"}},
 		c19Scn{Kind: "tcp", Actions: []string{"slowpush", "down", "fault:reset", "send", "send", "up", "push", "send"}},
-		c19Scn{Kind: "inproc", Actions: []string{"slowpush", "down", "fault:finish", "send", "up", "push"}})
+		c19Scn{Kind: "inproc", Actions: []string{"slowpush", "down", "fault:finish", "send", "up", "push"}},
+		// a server that is shutting down answers every new session with "finished": no session, no busy retrying
+		c19Scn{Kind: "mem", Actions: []string{"drain", "fault:eof", "watch", "send", "up", "push", "send"}},
+		c19Scn{Kind: "tcp", Actions: []string{"drain", "fault:finish", "watch", "push", "up", "watch", "push"}},
+		c19Scn{Kind: "ws", Actions: []string{"push", "drain", "fault:eof", "send", "watch", "up", "send", "push"}},
+		c19Scn{Kind: "inproc", Actions: []string{"drain", "fault:fail", "watch", "send", "up", "push"}})
 	nrand := env.Pick(24, 160)
 	for i := 0; i < nrand; i++ {
 		scns = append(scns, genC19(env, kinds[i%len(kinds)], 5+env.Rng.Intn(env.Pick(6, 14))))
